@@ -14,7 +14,8 @@ RULE = (
     "and extra languages; optional skipExportGlyphs of the only single-script glyph of a script; writers as classes or as instances first used on another font) x "
     "{ufoLib2, defcon}; oracle = for every script record and every language system of the compiled GPOS: if generated kern/dist is reachable, every generated feature among "
     "mark/mkmk/abvm/blwm/curs owning a lookup that covers a glyph of that script is reachable too. Default language systems of scripts that the user did not declare but that "
-    "the kern writer registers by its documented rule (an exported glyph belongs to that script alone) are the known finding KF-C20-1. Non-trivial = >= 2 scripts with kerning and "
+    "the kern writer registers by its documented rule (an exported glyph belongs to that script alone) and for which kerning of their own survives are the known finding KF-C20-1. "
+    "Also: variable fonts whose default source is listed second and alone carries the feature text; a right-to-left letter kerned only against a digit (pair dropped), with/without a spacing mark. Non-trivial = >= 2 scripts with kerning and "
     "a mark or cursive attachment on a non-DFLT script. Distinct = case hash."
 )
 ASSUMPTIONS = [
